@@ -81,6 +81,9 @@ pub struct World {
     pub inflight: Vec<J>,
     /// use the *_log_patches variants of every mutating call and attach the patches (C09)
     pub log_patches: bool,
+    /// run every plain (non-isolated) transaction a second time through an AutoCommit copy of the replica that has
+    /// the same actor, and compare call results, the view after every call and the committed change (C03)
+    pub auto_shadow: bool,
     /// cursors taken at earlier points of the scenario: (object, cursor, mode) (C26)
     pub cursors: Vec<(automerge::ObjId, automerge::Cursor, &'static str)>,
     /// object ids captured as live values on some replica at an earlier point (C30)
@@ -105,6 +108,7 @@ impl World {
             scenario,
             inflight: vec![],
             log_patches: false,
+            auto_shadow: false,
             cursors: vec![],
             idreg: vec![],
             desc_actors: false,
@@ -220,6 +224,14 @@ impl World {
         let level = self.obs_level;
         self.guarded(r, ev, |w| {
             let w_inflight = &mut w.inflight;
+            let mut shadow: Option<automerge::AutoCommit> = if w.auto_shadow && iso.is_none() {
+                let d = &w.reps[r];
+                let bytes = d.save_with_options(SaveOptions { deflate: false, retain_orphans: true });
+                automerge::AutoCommit::load_with_options(&bytes, LoadOptions::new().text_encoding(w.enc)).ok().map(|a| a.with_actor(d.get_actor().clone()))
+            } else {
+                None
+            };
+            let mut auto_bad: Vec<String> = vec![];
             let doc = &mut w.reps[r];
             let lp = w.log_patches;
             let mut tx = match &iso {
@@ -255,11 +267,26 @@ impl World {
                     rec["before"] = before;
                     rec["after"] = proj::view(&tx, None);
                 }
+                if let Some(ac) = shadow.as_mut() {
+                    let o2 = calls::exec(ac, &call);
+                    if o2["res"] != out["res"] || o2["ret"] != out["ret"] {
+                        auto_bad.push(format!("call {} {}: transaction {} {} / autocommit {} {}", i + 1, call["fn"], out["res"], out["ret"], o2["res"], o2["ret"]));
+                    } else if proj::view(ac, None) != proj::view(&tx, None) {
+                        auto_bad.push(format!("call {} {}: views differ after the call", i + 1, call["fn"]));
+                    }
+                }
                 done.push(rec);
             }
             let pending = tx.pending_ops();
             let (hash, mut plog) = tx.commit_with(CommitOptions::default().with_time(0));
             let mut out = json!({"calls": done, "pending": pending, "res":"ok"});
+            if let Some(ac) = shadow.as_mut() {
+                let h2 = ac.commit_with(CommitOptions::default().with_time(0));
+                if h2 != hash {
+                    auto_bad.push(format!("committed change: transaction {:?} / autocommit {:?}", hash.map(|h| enc::hash_str(&h)), h2.map(|h| enc::hash_str(&h))));
+                }
+                out["auto"] = json!({"same": auto_bad.is_empty(), "diffs": auto_bad});
+            }
             if lp {
                 let ps = w.reps[r].make_patches(&mut plog);
                 out["patches"] = crate::patchx::patches_json(&ps);
